@@ -18,6 +18,21 @@ def _docs_of(w):
         out.append((w if ("title" in w or "definitions" in w) else dict(w, title="W"), {}))
     return out
 
+def _twin_unions():
+    A = {"type": "object", "properties": {"branch": {"type": "string"}}}
+    B = {"type": "object", "properties": {"reason": {"type": "string"}, "merged": {"type": "boolean"}}}
+    def body(t): return {"type": "object", "properties": {"target": t, "n": {"type": "integer"}}, "required": ["target"]}
+    k = lambda v: {"type": "string", "enum": [v]}
+    return {
+        "external": {"oneOf": [{"type": "object", "properties": {"Opened": body(A)}, "required": ["Opened"], "additionalProperties": False},
+                               {"type": "object", "properties": {"Closed": body(B)}, "required": ["Closed"], "additionalProperties": False}]},
+        "adjacent": {"oneOf": [{"type": "object", "properties": {"kind": k("opened"), "detail": body(A)}, "required": ["kind", "detail"]},
+                               {"type": "object", "properties": {"kind": k("closed"), "detail": body(B)}, "required": ["kind", "detail"]}]},
+        "internal": {"oneOf": [{"type": "object", "properties": {"kind": k("opened"), "target": A}, "required": ["kind", "target"]},
+                               {"type": "object", "properties": {"kind": k("closed"), "target": B}, "required": ["kind", "target"]}]},
+        "untagged": {"oneOf": [{"type": "object", "properties": {"target": A, "o": {"type": "integer"}}, "required": ["target", "o"], "additionalProperties": False},
+                               {"type": "object", "properties": {"target": B, "c": {"type": "integer"}}, "required": ["target", "c"], "additionalProperties": False}]}}
+
 HAND = [
     # two (type, property) pairs whose default functions get the same name (defaults::foo_bar_baz)
     {"definitions": {"Foo": {"type": "object", "properties": {"bar_baz": {"type": "string", "default": "a"}}},
@@ -53,6 +68,11 @@ HAND = [
         "name": {"type": "string"}, "tracks": {"type": "array", "items": {"type": "string"}, "default": []},
         "labels": {"type": "object", "additionalProperties": {"type": "string"}, "default": {}},
         "owner": {"type": ["string", "null"], "default": None}}}}},
+    # twins: two variants declare a member of ONE name with DIFFERENT in-line object shapes — under every tagging, the union
+    # in-line (under a property) and as a definition
+    {"title": "Twins", "type": "object", "properties": dict(
+        [("in_" + tg, u) for tg, u in _twin_unions().items()]),
+     "definitions": dict([("Def" + tg.capitalize(), u) for tg, u in _twin_unions().items()])},
     # typed integer enumerations that list the bounds of every recognised format (values beyond i64 included)
     {"definitions": dict(
         [("E" + f.capitalize(), {"type": "integer", "format": f, "enum": [lo, 0, hi] if lo < 0 else [0, 1, hi]})
